@@ -56,31 +56,23 @@ Example C15_tuple_list_sequence_differs (x : E) :
   getvector (PyTuple [x]) None OSequence <> getvector (PyList [x]) None OSequence.
 Proof. cbn; congruence. Qed.
 
-(* ---- 3. list vs 1-D array.
-   FULL STATEMENT (false of the code as it is):
-     forall l dim out, out <> OSequence -> getvector (PyList l) dim out = getvector (Nd1 l) dim out
-   refuted by the empty list with a dim: `dim is not None and v and len(v) != dim` skips the test when v == []  *)
-Theorem C15_getvector_list_nd1_refuted : forall d, d <> 0 ->
-  getvector (PyList []) (Some d) OArray = Ok (VArr1 []) /\
-  getvector (Nd1 []) (Some d) OArray = Err ValueError.
-Proof.
-  intros d H; split; [reflexivity|]. unfold Nd1; cbn [C15_ArgCheck.getvector length]; unfold gv_nd.
-  rewrite shape_ok_1. destruct (Nat.eqb_spec 0 d); [congruence|reflexivity].
-Qed.
-
-Theorem C15_getvector_list_nd1_partial : forall (l : list E) dim out,
-  (l <> [] \/ dim = None \/ dim = Some 0) -> out <> OSequence ->
+(* ---- 3. list vs 1-D array: FULL STATEMENT (holds since fix 08cac29 closed the empty-list hole) *)
+Theorem C15_getvector_list_nd1 : forall (l : list E) dim out, out <> OSequence ->
   getvector (PyList l) dim out = getvector (Nd1 l) dim out.
 Proof.
-  intros l dim out G H. unfold Nd1; cbn [C15_ArgCheck.getvector]; unfold gv_seq, gv_nd.
+  intros l dim out H. unfold Nd1; cbn [C15_ArgCheck.getvector]; unfold gv_seq, gv_nd.
   destruct dim as [d|].
-  - rewrite shape_ok_1.
-    assert (X : negb (is_nil l) && negb (length l =? d) = negb (length l =? d)).
-    { destruct l; cbn; [|reflexivity]. destruct G as [G|[G|G]]; try congruence. now inversion G. }
-    rewrite X. destruct (negb (length l =? d)); [reflexivity|]. destruct out; try reflexivity; congruence.
+  - rewrite shape_ok_1. destruct (negb (length l =? d)); [reflexivity|]. destruct out; try reflexivity; congruence.
   - destruct out; try reflexivity; congruence.
 Qed.
-Example C15_list_nd1_partial_nonvacuous (x y z : E) :
+(* the formerly failing case, now an instance: the empty list with a dim is rejected exactly like the empty array *)
+Example C15_getvector_empty_list_rejected : forall d, d <> 0 ->
+  getvector (PyList []) (Some d) OArray = Err ValueError /\ getvector (Nd1 []) (Some d) OArray = Err ValueError.
+Proof.
+  intros d H; unfold Nd1; cbn [C15_ArgCheck.getvector length]; unfold gv_seq, gv_nd; rewrite shape_ok_1; cbn [length].
+  destruct (Nat.eqb_spec 0 d); [congruence|split; reflexivity].
+Qed.
+Example C15_list_nd1_nonvacuous (x y z : E) :
   getvector (PyList [x; y; z]) (Some 3) OArray = Ok (VArr1 [cv x; cv y; cv z]) /\
   getvector (Nd1 [x; y; z]) (Some 3) OArray = Ok (VArr1 [cv x; cv y; cv z]).
 Proof. split; reflexivity. Qed.
@@ -90,17 +82,17 @@ Theorem C15_getvector_scalar : forall (x : E) dim out,
   getvector (Scalar x) dim out = getvector (PyList [x]) dim out.
 Proof. reflexivity. Qed.
 
-(* ---- 4. all five forms at once, for non-empty vectors: one result, and it is exactly the converted elements *)
+(* ---- 4. all five forms at once, every list (the empty one included): one result *)
 Definition form5 (k : nat) (l : list E) : pyarg E :=
   match k with 0 => PyList l | 1 => PyTuple l | 2 => Nd1 l | 3 => NdRow l | _ => NdCol l end.
 
-Theorem C15_getvector_five_forms : forall k (l : list E) dim, l <> [] ->
+Theorem C15_getvector_five_forms : forall k (l : list E) dim,
   getvector (form5 k l) dim OArray = getvector (Nd1 l) dim OArray.
 Proof.
-  intros k l dim H.
+  intros k l dim.
   destruct k as [|[|[|[|k]]]]; cbn [form5].
-  - apply C15_getvector_list_nd1_partial; [now left|congruence].
-  - rewrite C15_getvector_tuple_list by congruence. apply C15_getvector_list_nd1_partial; [now left|congruence].
+  - apply C15_getvector_list_nd1; congruence.
+  - rewrite C15_getvector_tuple_list by congruence. apply C15_getvector_list_nd1; congruence.
   - reflexivity.
   - apply C15_getvector_row_col_nd1.
   - apply C15_getvector_row_col_nd1.
@@ -133,25 +125,27 @@ Proof.
       let X := fresh in destruct (shape_eqb a b) eqn:X; [apply shape_eqb_true in X; inversion X; congruence|] end. reflexivity.
 Qed.
 
-(* FULL STATEMENT (false): forall l d out, length l <> d -> getvector (PyList l) (Some d) out = Err ValueError *)
-Theorem C15_wrong_length_sequence_refuted : forall d, d <> 0 ->
-  length (@nil E) <> d /\ getvector (PyList []) (Some d) OArray = Ok (VArr1 []) /\
-  getvector (PyTuple []) (Some d) OArray = Ok (VArr1 []).
-Proof. intros d H; repeat split; cbn; congruence. Qed.
-
-Theorem C15_wrong_length_sequence_partial : forall (l : list E) d out, l <> [] -> length l <> d ->
+(* FULL STATEMENT (holds since fix 08cac29) *)
+Theorem C15_wrong_length_sequence : forall (l : list E) d out, length l <> d ->
   getvector (PyList l) (Some d) out = Err ValueError /\ getvector (PyTuple l) (Some d) out = Err ValueError.
 Proof.
-  intros l d out Hn H; cbn; unfold gv_seq. destruct l; [congruence|]. cbn [is_nil negb andb].
-  destruct (Nat.eqb_spec (length (e :: l)) d); [congruence|]. split; reflexivity.
+  intros l d out H; cbn [C15_ArgCheck.getvector]; unfold gv_seq.
+  destruct (Nat.eqb_spec (length l) d); [congruence|]. split; reflexivity.
 Qed.
-Example C15_wrong_length_partial_nonvacuous (x y : E) :
-  getvector (PyList [x; y]) (Some 3) OArray = Err ValueError.
-Proof. reflexivity. Qed.
+Example C15_wrong_length_nonvacuous (x y : E) :
+  getvector (PyList [x; y]) (Some 3) OArray = Err ValueError /\ getvector (@PyList E []) (Some 3) OArray = Err ValueError.
+Proof. split; reflexivity. Qed.
+
+(* wrong length is rejected in ALL five forms *)
+Theorem C15_wrong_length_five_forms : forall k (l : list E) d, length l <> d ->
+  getvector (form5 k l) (Some d) OArray = Err ValueError.
+Proof.
+  intros k l d H. rewrite C15_getvector_five_forms. now apply C15_wrong_length_ndarray.
+Qed.
 
 Theorem C15_wrong_length_scalar : forall (x : E) d out, d <> 1 -> getvector (Scalar x) (Some d) out = Err ValueError.
 Proof.
-  intros x d out H; cbn [C15_ArgCheck.getvector]; unfold gv_seq; cbn [is_nil negb andb length].
+  intros x d out H; cbn [C15_ArgCheck.getvector]; unfold gv_seq; cbn [negb andb length].
   destruct (Nat.eqb_spec 1 d); [congruence|reflexivity].
 Qed.
 
@@ -182,9 +176,9 @@ Proof.
   - destruct dim as [d|]; [|split; [reflexivity|congruence]].
     inversion H as [H1]. apply Nat.eqb_eq in H1; subst d. cbn. split; [reflexivity|]. intros d X; now inversion X.
   - destruct dim as [d|]; [|split; [reflexivity|congruence]].
-    inversion H as [H1]. rewrite H1, andb_false_r. split; [reflexivity|]. intros d' X; inversion X; subst; now apply Nat.eqb_eq.
+    inversion H as [H1]. rewrite H1. split; [reflexivity|]. intros d' X; inversion X; subst; now apply Nat.eqb_eq.
   - destruct dim as [d|]; [|split; [reflexivity|congruence]].
-    inversion H as [H1]. rewrite H1, andb_false_r. split; [reflexivity|]. intros d' X; inversion X; subst; now apply Nat.eqb_eq.
+    inversion H as [H1]. rewrite H1. split; [reflexivity|]. intros d' X; inversion X; subst; now apply Nat.eqb_eq.
   - destruct dim as [d|]; [|split; [reflexivity|congruence]].
     inversion H as [H1]. rewrite H1. split; [reflexivity|]. intros d' X; inversion X; subst d'.
     unfold shape_ok in H1. apply orb_true_iff in H1. destruct H1 as [H1|H1]; [apply orb_true_iff in H1; destruct H1 as [H1|H1]|];
@@ -195,10 +189,21 @@ Example C15_isvector_sound_nonvacuous (x y z : E) :
   wf (NdCol [x; y; z]) /\ isvector (NdCol [x; y; z]) (Some 3) = Ok true.
 Proof. split; reflexivity. Qed.
 
-(* FULL STATEMENT (false): getvector a dim OArray = Ok v -> isvector a dim = Ok true.
-   Three witnesses: the empty list with a dim (the hole), the empty 1-D array, and a matrix without dim (flattened silently) *)
+(* completeness, WITH a dim: full statement, every argument (holds since fix 08cac29) *)
+Theorem C15_isvector_complete_with_dim : forall (a : pyarg E) d v,
+  getvector a (Some d) OArray = Ok v -> isvector a (Some d) = Ok true.
+Proof.
+  intros a d v H; destruct a; cbn [C15_ArgCheck.getvector C15_ArgCheck.isvector] in *; unfold gv_seq, gv_nd in H; cbn [length] in H.
+  - destruct (Nat.eqb_spec 1 d); [subst; reflexivity|discriminate].
+  - destruct (length l =? d); [reflexivity|discriminate].
+  - destruct (length l =? d); [reflexivity|discriminate].
+  - destruct (shape_ok shape d); [reflexivity|discriminate].
+  - discriminate.
+Qed.
+
+(* completeness WITHOUT a dim.  FULL STATEMENT (still false): getvector a None OArray = Ok v -> isvector a None = Ok true.
+   Two witnesses remain: the empty 1-D array (R2) and a matrix, which getvector flattens silently when no dim is given *)
 Theorem C15_isvector_complete_refuted : forall (x : E),
-  (getvector (PyList []) (Some 3) OArray = Ok (VArr1 []) /\ isvector (@PyList E []) (Some 3) = Ok false) /\
   (getvector (Nd1 []) None OArray = Ok (VArr1 []) /\ isvector (@Nd1 E []) None = Ok false) /\
   (getvector (Nd2 2 2 [x; x; x; x]) None OArray = Ok (VArr1 [cv x; cv x; cv x; cv x]) /\ isvector (Nd2 2 2 [x; x; x; x]) None = Ok false).
 Proof. intros; repeat split. Qed.
@@ -208,10 +213,9 @@ Theorem C15_isvector_complete_partial : forall k (l : list E) dim v, l <> [] ->
 Proof.
   intros k l dim v Hn H.
   assert (L : 0 <? length l = true) by (destruct l; [congruence|reflexivity]).
-  assert (N : is_nil l = false) by (destruct l; [congruence|reflexivity]).
   destruct k as [|[|[|[|k]]]]; cbn [form5] in *; unfold Nd1, NdRow, NdCol in *;
     cbn [C15_ArgCheck.getvector C15_ArgCheck.isvector] in *; unfold gv_seq, gv_nd in H;
-    destruct dim as [d|]; rewrite ?shape_ok_1, ?shape_ok_row, ?shape_ok_col, ?N in *; cbn [negb andb] in H;
+    destruct dim as [d|]; rewrite ?shape_ok_1, ?shape_ok_row, ?shape_ok_col in *; cbn [negb andb] in H;
     try (destruct (length l =? d); [reflexivity|discriminate]);
     rewrite ?L; cbn [Nat.eqb Nat.ltb Nat.leb andb orb]; rewrite ?andb_true_r, ?orb_true_r; reflexivity.
 Qed.
@@ -246,20 +250,20 @@ Proof. intros; unfold assertvector; now rewrite C15_isvector_wrong_length. Qed.
 End Forms.
 Print Assumptions C15_getvector_row_col_nd1.
 Print Assumptions C15_getvector_tuple_list.
-Print Assumptions C15_getvector_list_nd1_refuted.
-Print Assumptions C15_getvector_list_nd1_partial.
+Print Assumptions C15_getvector_list_nd1.
 Print Assumptions C15_getvector_scalar.
 Print Assumptions C15_getvector_five_forms.
 Print Assumptions C15_getvector_value.
 Print Assumptions C15_wrong_length_ndarray.
 Print Assumptions C15_matrix_rejected.
-Print Assumptions C15_wrong_length_sequence_refuted.
-Print Assumptions C15_wrong_length_sequence_partial.
+Print Assumptions C15_wrong_length_sequence.
+Print Assumptions C15_wrong_length_five_forms.
 Print Assumptions C15_wrong_length_scalar.
 Print Assumptions C15_right_length_accepted.
 Print Assumptions C15_other_rejected.
 Print Assumptions C15_bad_out_rejected.
 Print Assumptions C15_isvector_sound.
+Print Assumptions C15_isvector_complete_with_dim.
 Print Assumptions C15_isvector_complete_refuted.
 Print Assumptions C15_isvector_complete_partial.
 Print Assumptions C15_isvector_five_forms.
